@@ -1,7 +1,7 @@
 (* Properties_C11.v -- any pattern string is safely rejected or compiled; matching stays in bounds.
    Statements only; proofs are in ReProps*.v. *)
 From Coq Require Import List NArith ZArith.
-From NV Require Import Bytes GenConsts ReSyntax ReParse ReEmit ReVM ReSem RsetDefs ReProps ReProps2 ReProps3 ReProps4 ReProps5 ReProps6 ReProps7 ReProps8 ReProps10 ReProps11 ReProps12.
+From NV Require Import Bytes GenConsts ReSyntax ReParse ReEmit ReVM ReSem RsetDefs ReProps ReProps2 ReProps3 ReProps4 ReProps5 ReProps6 ReProps7 ReProps8 ReProps10 ReProps11 ReProps12 ReCountBound.
 Import ListNotations.
 
 (* for EVERY byte string: if regcomp accepts it, the emitted program (MARK 0, code, MARK 1, MATCH)
@@ -91,6 +91,26 @@ Print Assumptions C11_rset_pattern_ends_in_paren.
 Theorem C11_parse_bare_refuted : parse_pat [97; 123]%N = OOB SBrace /\ parse_pat [92]%N = NoFuel.
 Proof. exact (conj bare_brace_oob bare_backslash_spins). Qed.
 Print Assumptions C11_parse_bare_refuted.
+
+(* the estimate rnode_count is computed in C ints; the model computes it in Z.  What makes the C arithmetic safe:
+   every result is saturated at NINST (on EVERY return path, also the unrepeated-node one), the parser only returns
+   counts 0 <= min, max <= NREPS, hence every intermediate value of every activation of rnode_count -- the sums of the
+   children's estimates, (min+1)*n, (min+max)*n, ... listed by ReCountBound.count_vals -- lies in
+   [0, 2*NREPS*(2*NINST+2)+NREPS+1] which is below 2^31 for the generated constants.  (A source in which the
+   saturation is dropped on one path is NOT covered by this theorem -- the model would have to change -- it is
+   caught by the limit patterns of tools/props/c11.py: several saturating siblings inside one more {128}.) *)
+Theorem C11_count_saturated : forall t, (0 <= NINST)%Z -> (count t <= NINST)%Z.
+Proof. exact count_le_ninst. Qed.
+Print Assumptions C11_count_saturated.
+
+Theorem C11_parser_counts_bounded : forall f s t s', rnode_parse f s = Ok (Some t, s') -> bd_node t.
+Proof. exact rnode_parse_bd. Qed.
+Print Assumptions C11_parser_counts_bounded.
+
+Theorem C11_count_no_int_overflow : forall f s t s', rnode_parse f s = Ok (Some t, s') ->
+  Forall (fun v => (- 2^31 <= v < 2^31)%Z) (count_vals t) /\ (0 <= count t <= NINST)%Z.
+Proof. intros f s t s' H. split; [exact (parse_count_vals_int f s t s' H) | exact (parse_count_range f s t s' H)]. Qed.
+Print Assumptions C11_count_no_int_overflow.
 
 Example C11_nonvacuous : exists p, regcomp [40; 97; 123; 50; 44; 51; 125; 41]%N = Ok (Some p).
 Proof. eexists. vm_compute. reflexivity. Qed.
